@@ -22,6 +22,10 @@ FORBIDDEN = re.compile(
 # session-catalog mutation: only the engine's own table registration
 CATALOG_MUT = re.compile(r"^datafusion::prelude::SessionContext::(register_table|deregister_table|register_object_store|register_catalog|register_variable|register_table_options_extension|new_with_state|new_with_config|new)$")
 CATALOG_OK = {ENG + "register_metrics_table_for_chunks_locked", ENG + "register_empty_metrics_table", ENG + "register_chunk", ENG + "new", ENG + "register_metrics_table_for_chunks"}
+# writing the session's state / configuration
+STATE_MUT = re.compile(r"SessionContext::(state_ref|state_weak_ref|add_analyzer_rule|add_optimizer_rule|remove_optimizer_rule|enable_url_table|with_\w+|into_state_builder)$"
+                       r"|SessionState::(config_mut|table_factories_mut|execution_props_mut|add_\w+|register_\w+|set_\w+)$"
+                       r"|SessionConfig::(options_mut|set|set_\w+|with_\w+)$|ConfigOptions::set$")
 WRITE_RX = re.compile(r"^object_store::ObjectStore::(put|put_opts|put_multipart|put_multipart_opts|delete|delete_stream|rename|copy|copy_if_not_exists|rename_if_not_exists)$")
 
 
@@ -62,6 +66,15 @@ def r1(cx):
             cx.passed(k, "session-catalog:%s" % c["callee"].rsplit("::", 1)[1], [c["sp"]])
         else:
             cx.violation(k, "session-catalog:%s" % c["callee"].rsplit("::", 1)[1], "%s: %s changes the shared session's catalog outside the engine's table registration" % (c["sp"], p), [c["sp"]])
+    # the session's state is not written after construction: configuration (time zone, default catalog / schema, batch size, ...) is what every later query of every
+    # client sees; SessionContext::clone shares the state, so a "request-scoped copy" is the same session
+    for k, c in pa.sites(lambda c: bool(STATE_MUT.search(c))):
+        p = named_parent(k)
+        if p in (ENG + "new",):
+            cx.passed(k, "session-state:%s" % c["callee"].rsplit("::", 1)[1], [c["sp"]])
+        else:
+            cx.violation(k, "session-state:%s" % c["callee"].rsplit("::", 1)[1], "%s: %s reaches into the shared session's state (%s): SessionContext::clone shares one SessionState, so a setting changed for one "
+                         "request (time zone, default schema, ...) is what every later query through any interface is evaluated under" % (c["sp"], p, c["callee"].rsplit("::", 2)[-2] + "::" + c["callee"].rsplit("::", 1)[-1]), [c["sp"]])
     # the session is not handed out
     adt = cx.lib.adts.get("query::engine::QueryEngine")
     fld = [f for f in (adt["variants"][0]["fields"] if adt else []) if "SessionContext" in f["ty"]]
